@@ -60,8 +60,9 @@ def mixed_tree(rng, tier, kinds=("friendly", "rule", "poly", "rational", "specia
     fam = rng.choices(kinds, weights[:len(kinds)])[0]
     hi = 40 if tier == "quick" else 80
     vals = G.POINT_VALUES
+    wide = G.Cfg(max_n=12, max_arity=8, float_n=0.15) if (tier != "quick" or rng.random() < 0.15) else G.DEFAULT
     if fam == "friendly":
-        t = G.friendly_tree(rng, G.rand_size(rng, 2, hi))
+        t = G.friendly_tree(rng, G.rand_size(rng, 2, hi), wide)
     elif fam == "rule":
         t = G.rule_case(rng)
     elif fam == "poly":
@@ -73,7 +74,7 @@ def mixed_tree(rng, tier, kinds=("friendly", "rule", "poly", "rational", "specia
     elif fam == "special":
         t = special_tree(rng)
     else:
-        t = G.rand_tree(rng, G.rand_size(rng, 1, hi))
+        t = G.rand_tree(rng, G.rand_size(rng, 1, hi), wide)
     return t, fam, vals
 
 
